@@ -1,6 +1,7 @@
 """C01 - Hermitian: U^dagger H U equals H_tilde on kept elements, zero on eliminated ones."""
 from .common import Decision, run_units
-from .series_props import fold_canaries
+from .series_props import fold_canaries, specs_nof
+from .secondq_props import specs_secondq
 from .hermitian_common import specs_hermitian, LEAN_SETTING_NOTE, LEAN_VACUITY
 
 LEAN = ["PV.pairing", "PV.unit_left", "PV.X_comm", "PV.main_similarity", "PV.C01_similarity", "PV.C01_eliminated",
@@ -12,7 +13,8 @@ def check(tier, seed):
     t = 60000 if tier == "thorough" else 20000
     norm = [("contracts.bd_guards", "unit_fully_diagonalize_normalisation", {"nb": nb, "given": g, "timeout_ms": t}) for nb in (1, 2) for g in ("empty", "list", "ndarray", "dict")]
     guards = [("contracts.bd_guards", "unit_h0_guards", {"nb": 2, "hermitian": True, "timeout_ms": t})]
-    d.add_units(fold_canaries(run_units(specs_hermitian(tier) + norm + guards)))
+    # operator-valued (second-quantized) Hermitian input: operator algebra and solver under the C07 / C08 contracts
+    d.add_units(fold_canaries(run_units(specs_hermitian(tier) + norm + guards + specs_nof(tier) + specs_secondq(tier))))
     d.add_lean(LEAN + LEAN_VACUITY)
     d.assumptions += [LEAN_SETTING_NOTE,
                       "input precondition: H is Hermitian (H[i,j,n]^dagger = H[j,i,n]) and masks are symmetric",
@@ -23,5 +25,7 @@ def check(tier, seed):
                      "(1+U'^dagger) H (1+U') = H_tilde in every filtered star ring with the block structure above, hence for all block counts and "
                      "sizes, numbers of parameters, orders and masks; the evaluators, products, cache and wiring that make the extracted equations "
                      "the equations that run are discharged by the PyVC units of C09/C18/C19 re-run here.")
+    d.run_battery("nof_battery.py", ["secondq"], "operator-valued input: 6 second-quantized models + 2 operator masks against numpy block_diagonalize on truncated Fock spaces; "
+                  "U^dagger U = 1 and U^dagger H U = H_tilde within the operator algebra (see C07)", timeout=3000)
     d.run_battery("bd_battery.py", ['herm'], "<= 3 blocks of size <= 3, <= 2 parameters, total order <= 3, dense/sparse, fixed mask family; see replay/bd_battery.py")
     return d.finish(level="proof", trusted_base=["leanalg/lean/PV/*.lean", "leanalg/genlean.py", "leanalg/extract.py", "contracts/*.py"])
